@@ -1,8 +1,11 @@
 #!/usr/bin/env bash
 # run seed_eval for every seeded change matching the glob (default: all) against its own property's check
+# plus the extra check ids given after the glob
 cd /verif
-for d in ${1:-seeded/C*-m*}; do
+glob="${1:-seeded/C*-m*}"; shift
+for d in $glob; do
   id=$(basename $d | cut -d- -f1)
+  extra=""; for x in "$@"; do [ "$x" != "$id" ] && extra="$extra $x"; done
   echo "== $d"
-  tools/seed_eval.sh $d $id 2>&1 | tail -3
+  tools/seed_eval.sh $d $id $extra 2>&1 | grep -E "rc="
 done
